@@ -3,7 +3,8 @@
 System under test: read_input_dict(spec, output_file=..., save_frequency=f) + BatchSimulation.run(n),
 i.e. what `panqec run` executes, on a results file inside a per-execution sandbox in /dev/shm.
 
-Histories  (spec1, n1) -> stop -> (spec2, n2) [-> stop -> (spec2, n2 + 1) in the thorough tier].
+Histories  (spec1, n1) -> stop -> (spec2, n2) [-> stop -> (spec2, n2 + 1) in the thorough tier], and
+           (spec1, n1) complete -> (spec2, n2) interrupted while it loads the file -> (spec2, n2)  ["resume"].
 Stops:
   between-trials   a stop no handler sees, at every trial boundary (live), and every crash image of
                    the op log at which no file is open for writing
@@ -65,6 +66,8 @@ LEVEL_NOTE = ('Trusted: mc/env_fs.py (LoggedFS op log; its replay model is verif
               '(file status, last completed save) class of first-stop states and uses representative offsets '
               '(JSON token boundaries to depth 2) for both stops.')
 RULE = ('cases = histories (container, n1<=n2, save_frequency, spec2 in {same,+rate,+size}) x stop family x shard; '
+        'plus "resume" cases (run 1 complete, KeyboardInterrupt before/after every open of the results file and '
+        'at the first trial boundary of run 2, run 3 to the same target); '
         'within a case every stop point of the family is executed (thorough: every byte offset; quick: offsets '
         '{0,1,len-1,len} + every JSON token boundary to depth 3 / every gzip write boundary and the middle of the '
         'deflate block; quick interrupts in a JSON text: token boundaries to depth 2); a sub-case is the state (disk image, last completed save, trials produced so far) reached '
@@ -392,6 +395,36 @@ class Sandbox:
         shutil.rmtree(self.base, ignore_errors=True)
 
 
+class Cum(dict):
+    """{ident: normalised results}: for every simulation the longest record any completed save of the
+    history so far has held (a later completed save replaces it only if it extends it).  This is what a
+    restart must keep: a completed save that drops or shrinks a record loses trials."""
+    _dg = None
+
+    @property
+    def dg(self):
+        if self._dg is None:
+            self._dg = hashlib.sha1(json.dumps(self, sort_keys=True).encode()).hexdigest()
+        return self._dg
+
+
+def extend_cum(cum, save_bytes, container):
+    p = parse_save(save_bytes, container)
+    if not p:
+        return cum
+    out = Cum(cum)
+    for ident, st in p.items():
+        old = out.get(ident)
+        if old is None or all(st[k][:len(old[k])] == old[k] for k in LISTS):
+            out[ident] = st
+    return out
+
+
+def cum_of(start):
+    """Cumulative save of a start state (image, b0, lineage[, cum])."""
+    return start[3] if len(start) > 3 and start[3] is not None else Cum()
+
+
 def latest_save(saves, before, fallback):
     best = fallback
     for idx, data in saves:
@@ -409,7 +442,8 @@ def stops_of_run(sb, container, variant, n, f, start, families, tier_offsets, se
 
     def mine(i):
         return shard is None or i % shard[1] == shard[0]
-    image0, b0_0, lineage0 = start
+    image0, b0_0, lineage0 = start[:3]
+    cum0 = cum_of(start)
     d = sb.fresh(image0)
     probe = execute(d, container, variant, n, f, serial, trace_disk='kill' in families)
     image_end = E.read_image(d)
@@ -424,6 +458,16 @@ def stops_of_run(sb, container, variant, n, f, start, families, tier_offsets, se
     sess = E.sessions(log)
     classes = {h: E.offset_classes(s, json_depth=tier_offsets.get('json_depth', 3)) for h, s in sess.items()}
     lineage_full = merge_lineage(lineage0, probe['mem'])
+    cums = []                   # cums[k] = cumulative save after the k-th completed save of this run
+    for _i, data in saves:
+        cums.append(extend_cum(cums[-1] if cums else cum0, data, container))
+
+    def cum_before(i):
+        best = cum0
+        for k, (sidx, _d) in enumerate(saves):
+            if sidx < i:
+                best = cums[k]
+        return best
 
     if 'kill' in families:
         use = None if tier_offsets['kill'] == 'all' else classes
@@ -432,15 +476,16 @@ def stops_of_run(sb, container, variant, n, f, start, families, tier_offsets, se
         seen = set()           # over ALL crash states of this run, so that distinct ones are counted once
         #                        whichever shard executes them
 
-        def fresh(image, b0):
-            dg = digest_state(image, out_rel, b0, ldg)
+        def fresh(image, b0, cum):
+            dg = digest_state(image, out_rel, b0, ldg + cum.dg)
             new = dg not in seen
             seen.add(dg)
             return dg, new
         for i, j, image in E.crash_images(log, image0, use):
             idx += 1
             b0 = latest_save(saves, i, b0_0)
-            dg, new = fresh(image, b0)
+            cum = cum_before(i)
+            dg, new = fresh(image, b0, cum)
             if not mine(idx):
                 continue
             in_write = j > 0 or open_at[i]
@@ -452,7 +497,7 @@ def stops_of_run(sb, container, variant, n, f, start, families, tier_offsets, se
                 where['offset_in_file'] = start_off + j
                 where['file_len_when_complete'] = len(s['content'])
             yield {'stop': 'kill-in-write' if in_write else 'between-trials', 'where': where, 'idx': idx,
-                   'image': image, 'b0': b0, 'lineage': lineage_full, 'digest': dg, 'first': new}
+                   'image': image, 'b0': b0, 'cum': cum, 'lineage': lineage_full, 'digest': dg, 'first': new}
 
         # the same kill points with user-space buffering as it really was in this execution
         ord2idx = {}
@@ -467,13 +512,14 @@ def stops_of_run(sb, container, variant, n, f, start, families, tier_offsets, se
             idx += 1
             i = ord2idx.get(n_ord, len(log))
             b0 = latest_save(saves, i, b0_0)
-            dg, new = fresh(disk, b0)
+            cum = cum_before(i)
+            dg, new = fresh(disk, b0, cum)
             if not mine(idx):
                 continue
             yield {'stop': 'kill-in-write' if open_at[i] else 'between-trials', 'idx': idx,
                    'where': {'log_index': i, 'event': log[i]['k'] if i < len(log) else 'end',
                              'log_len': len(log), 'crash_model': 'bytes as really on disk (buffered writes)'},
-                   'image': disk, 'b0': b0, 'lineage': lineage_full, 'digest': dg, 'first': new}
+                   'image': disk, 'b0': b0, 'cum': cum, 'lineage': lineage_full, 'digest': dg, 'first': new}
 
     live = []
     if 'between' in families:
@@ -487,6 +533,12 @@ def stops_of_run(sb, container, variant, n, f, start, families, tier_offsets, se
             iclasses = {h: E.offset_classes(x, json_depth=tier_offsets['interrupt_json_depth'])
                         for h, x in sess.items()}
         pts = E.interrupt_points(log, iclasses if mode == 'classes' else None, mode)
+        if tier_offsets.get('load_phase_only'):
+            # the part of the run that reads the results file: everything up to the first trial boundary
+            # (the whole run if it executes no trial)
+            marks = [ev['n'] for ev in log if ev['k'] == 'mark']
+            last = marks[0] if marks else max([p[0] for p in pts] or [0])
+            pts = [p for p in pts if p[0] <= last]
         for (n_ord, phase, off, kind) in pts:
             live.append(('interrupt', E.Injection(n_ord, phase, off, KeyboardInterrupt), kind))
     for stop, inj, kind in live:
@@ -504,8 +556,11 @@ def stops_of_run(sb, container, variant, n, f, start, families, tier_offsets, se
             if model != image:
                 raise E.FSModelError('live disk after a hard stop differs from the replay of its log')
         sv = E.completed_saves(rec['log'], out_rel)
+        cum = cum0
+        for _i, data in sv:
+            cum = extend_cum(cum, data, container)
         yield {'stop': stop, 'where': dict(inj.as_dict(), event=kind, first_run_raised=rec['raised']),
-               'idx': idx, 'image': image, 'b0': latest_save(sv, len(rec['log']) + 1, b0_0),
+               'idx': idx, 'image': image, 'b0': latest_save(sv, len(rec['log']) + 1, b0_0), 'cum': cum,
                'lineage': merge_lineage(lineage0, rec['mem'])}
 
 
@@ -544,8 +599,10 @@ def restart_and_judge(sb, container, variant2, n2, f, state, serial):
     rec = execute(d, container, variant2, n2, f, serial, observe=False)
     image = E.read_image(d)
     sb.drop(d)
-    viol = judge(container, variant2, n2, parse_save(state['b0'], container) or {}, state['lineage'],
-                 rec, image.get(out_rel))
+    must_keep = state.get('cum')
+    if must_keep is None:
+        must_keep = parse_save(state['b0'], container) or {}
+    viol = judge(container, variant2, n2, must_keep, state['lineage'], rec, image.get(out_rel))
     ok_digest = 'ok' if not viol else '+'.join(sorted({v[0] + (':' + v[1] if v[1] else '') for v in viol}))
     adopted = ','.join(str(n2 - rec['executed'].get(i, 0)) for i in idents_of(variant2))
     return viol, '%s|a=%s' % (ok_digest, adopted), rec, image
@@ -671,6 +728,10 @@ def cases(tier, seed):
         for container in b['containers']:
             out.append({'family': 'plant', 'container': container, 'foreign': variant, 'tier': tier,
                         'save_frequency': b['save_frequency']})
+    for f in b['save_frequency']:
+        for container in b['containers']:
+            out.append({'family': 'resume', 'container': container, 'save_frequency': f,
+                        'n_pairs': b['n_pairs'], 'spec2': b['spec2'], 'tier': tier})
     fams = ['between', 'kill', 'interrupt'] + (['depth2'] if b['depth'] >= 2 else [])
     for fam in fams:
         for (n1, n2) in b['n_pairs']:
@@ -699,6 +760,8 @@ def eval_case(case):
             return _eval_plant(case, sb)
         if case['family'] == 'depth2':
             return _eval_depth2(case, sb)
+        if case['family'] == 'resume':
+            return _eval_resume(case, sb)
         return _eval_depth1(case, sb)
     finally:
         sb.close()
@@ -749,7 +812,8 @@ def _judge_stop(acc, sb, case, st, variant2, n2, f, serial, depth, chain=None):
         if nontrivial and st['first']:
             acc.states.add((st.get('start'), dg))
     else:                                 # live stop: other shards may reach the same state; count it in one
-        dg = digest_state(st['image'], out_rel, st['b0'], digest_lineage(st['lineage']))
+        dg = digest_state(st['image'], out_rel, st['b0'],
+                          digest_lineage(st['lineage']) + (st['cum'].dg if st.get('cum') is not None else ''))
         m = case.get('of', 1)
         if nontrivial and (m == 1 or int(dg, 16) % m == case.get('shard', 0)):
             acc.states.add((st.get('start'), dg))
@@ -836,7 +900,7 @@ def _eval_depth2(case, sb):
             if rep_no % case['of'] == case['shard']:
                 acc.res['skipped'] += 1
             continue
-        start = (st1['image'], st1['b0'], st1['lineage'])
+        start = (st1['image'], st1['b0'], st1['lineage'], st1.get('cum'))
         chain = {'stop': st1['stop'], 'where': st1['where']}
         for st2 in stops_of_run(sb, container, case['spec2'], case['n2'], f, start,
                                 {'kill', 'between', 'interrupt'}, q, serial=100000):
@@ -848,6 +912,44 @@ def _eval_depth2(case, sb):
             st2['start'] = rep_no
             _judge_stop(acc, sb, case, st2, case['spec2'], case['n2'] + 1, f, serial=200000, depth=2,
                         chain=chain)
+    return acc.finish()
+
+
+RESUME_OFFSETS = {'kill': 'classes', 'interrupt': {'json': 'classes', 'gz': 'classes'}, 'json_depth': 2,
+                  'load_phase_only': True}
+
+
+def _eval_resume(case, sb):
+    """run 1 completes; run 2 (a resume on the existing file) is interrupted at every interceptable point of
+    its load phase - before/after every open of the results file and at its first trial boundary; run 3 goes
+    to the same target and is judged against everything any completed save of runs 1 and 2 has held."""
+    acc = _Acc(case)
+    container, f = case['container'], case['save_frequency']
+    out_rel = out_name(container)
+    for (n1, n2) in case['n_pairs']:
+        d = sb.fresh({})
+        rec1 = execute(d, container, 'base', n1, f, serial=0)
+        image1 = E.read_image(d)
+        sb.drop(d)
+        if rec1['raised'] is not None:
+            acc.add('first-run-raises', 'none', rec1['raised'][0], f, {'message': rec1['raised'][1]})
+            continue
+        saves = E.completed_saves(rec1['log'], out_rel)
+        cum = Cum()
+        for _i, data in saves:
+            cum = extend_cum(cum, data, container)
+        start = (image1, latest_save(saves, len(rec1['log']) + 1, None), merge_lineage({}, rec1['mem']), cum)
+        for spec2 in case['spec2']:
+            sub = dict(case, n1=n1)
+            chain = {'stop': 'none (run 1 completed %d trials)' % n1}
+            for st2 in stops_of_run(sb, container, spec2, n2, f, start, {'interrupt'}, RESUME_OFFSETS,
+                                    serial=100000):
+                if 'probe_raised' in st2:
+                    acc.add('restart-raises', 'none', st2['probe_raised'][0], f,
+                            {'message': st2['probe_raised'][1]})
+                    break
+                st2['start'] = '%d-%d-%s' % (n1, n2, spec2)
+                _judge_stop(acc, sb, sub, st2, spec2, n2, f, serial=200000, depth=2, chain=chain)
     return acc.finish()
 
 
